@@ -2,6 +2,7 @@ import CalVerif.Prim.Wire
 import CalVerif.Model.OdsRange
 import CalVerif.Spec.OdsRange
 import CalVerif.Model.OdsCell
+import CalVerif.Model.OdsCount
 /-! Driver for C04 (values = `usize`, 0 = the default / empty cell).
 
     lists are comma separated, `-` = empty list
@@ -14,6 +15,8 @@ import CalVerif.Model.OdsCell
     `cell <attr>;<attr>;…`                    → `<val> f=<formula hex> text=<0|1>` | `err` (model of get_datatype's
                                                  attribute loop; attr = `v<f64 bits>` | `v!` (unparsable) | `s|d|t|b|y|f<hex>` | `o`;
                                                  val = `E` | `F<bits>` | `S|D|T<hex>` | `B0|B1`)
+    `count <axis> <hex>`                      → `k` | `err`: the repeat count (axis 0 = columns, an i32; 1 = rows, a usize) read from an attribute value (UTF-8 hex of the
+                                                 value after unescaping; `-` = empty), model `OdsCount.parseCount`
     runs: rows separated by `/`, a row is `rep:v*k;v*k;…` (`rep:` = a row without cells), `-` = no rows
     range dump: `S=r,c E=r,c N=<len> C=<cells>`; more than 4096 cells: `C=#<fnv64 of the cell text>` -/
 
@@ -146,6 +149,18 @@ def handle (line : String) : String :=
     | some runs => s!"{dumpRes (getRange (collect runs))}|{specDump runs}"
     | none => "bad-op"
   | ["cell", a] => handleCell a
+  | ["count", axis, h] =>
+    match strOfHex h with
+    | some t =>
+      if axis = "0" then
+        match OdsCount.parseColCount t.toList with
+        | some k => toString k
+        | none => "err"
+      else
+        match OdsCount.parseCount t.toList with
+        | some k => toString k
+        | none => "err"
+    | none => "bad-op"
   | ["casevf", rs] =>
     match parseRunsVF rs with
     | some runs =>
